@@ -80,6 +80,7 @@ def run(ck, fb):
     r16f(ck, fb, rows)
     r16g(ck, fb)
     r16h(ck, fb)
+    r16i(ck, fb)
     r16e(ck, fb)
 
 
@@ -243,6 +244,45 @@ def _static_name(b, operand):
     return None
 
 
+
+def session_providers(fb, blk):
+    """helpers of the auth middleware through which the async block obtains the session: same-file functions the block calls whose bodies look
+    the session up with get_user_session. [] when the block calls get_user_session itself."""
+    out = []
+    for s0 in blk.sites:
+        t = util._local_target(blk, s0)
+        if t is None or t.file != blk.file or t.name.endswith('::get_user_session'):
+            continue
+        if any(x.calls(r'auth_middle::get_user_session$') for x in util.region(fb, t, 2)):
+            if t.name not in [q.name for q in out]:
+                out.append(t)
+    return out
+
+
+def session_lookups(fb, blk):
+    """[(body, site)] of every get_user_session call the async block can reach (itself and its session providers)"""
+    out = [(blk, s0) for s0 in blk.calls(r'auth_middle::get_user_session$')]
+    for t in session_providers(fb, blk):
+        for x in util.region(fb, t, 2):
+            out += [(x, s0) for s0 in x.calls(r'auth_middle::get_user_session$')]
+    return out
+
+
+def is_session_discr(fb, blk, d):
+    """'session_result' / 'session_option' if the discriminant tested is the outcome of the session lookup (direct or through a provider)"""
+    if d.get('k') != 'discr':
+        return None
+    txt = cfg.fmt_desc(cfg.describe_operand(blk, {'cp': d['pl']}))
+    names = ['get_user_session'] + [t.name.split('::')[-1] for t in session_providers(fb, blk)]
+    if not any(n in txt for n in names):
+        return None
+    if d.get('adt') == 'std::result::Result':
+        return 'session_result'
+    if d.get('adt') == 'std::option::Option':
+        return 'session_option'
+    return None
+
+
 class OuterEval:
     def __init__(self, fb, body, path, path_sources):
         self.fb, self.b, self.path = fb, body, path
@@ -371,13 +411,9 @@ def r16f(ck, fb, rows):
                 return ('bool', ('uv', int(d['fields'][0])))
             if d['k'] == 'call' and (cfg.callee_name(d['term']) or '').endswith('String::is_empty'):
                 return ('bool', 'token_empty')
-            if d['k'] == 'discr':
-                pd = cfg.describe_operand(b, {'cp': d['pl']})
-                txt = cfg.fmt_desc(pd)
-                if 'get_user_session' in txt and d.get('adt') == 'std::result::Result':
-                    return ('variant', 'session_result')
-                if 'get_user_session' in txt and d.get('adt') == 'std::option::Option':
-                    return ('variant', 'session_option')
+            sd = is_session_discr(fb, b, d)
+            if sd:
+                return ('variant', sd)
             return None
         return classify
 
@@ -406,7 +442,10 @@ def r16f(ck, fb, rows):
                 return
             n += 1
             leaks = []
-            for (te, sr, so) in ((True, 'Ok', 'Some'), (True, 'Err', 'None'), (False, 'Err', 'None'), (False, 'Ok', 'None')):
+            # with a session provider "empty token" and "failed lookup" are both folded into its None
+            no_token = ((True, 'Ok', 'None'), (False, 'Ok', 'None')) if session_providers(fb, b) else \
+                ((True, 'Ok', 'Some'), (True, 'Err', 'None'), (False, 'Err', 'None'), (False, 'Ok', 'None'))
+            for (te, sr, so) in no_token:
                 env = {('uv', i): v for i, v in vals.items()}
                 env.update({'token_empty': te, 'session_result': sr, 'session_option': so})
                 reach, flags = walk.table_walk(b, classify_for(vals), env, call_name)
@@ -442,6 +481,8 @@ def r16g(ck, fb):
             nm = _static_name(b, st.args[0]) or ''
             if 'METRICS' in nm:
                 continue   # metrics bookkeeping only, not an access decision
+            if not nm and (st.callee or '').endswith('::contains'):
+                continue   # contains() on a local collection (e.g. tokens already tried), not a path table
             n += 1
             txt = cfg.fmt_desc(cfg.describe_operand(b, st.args[1]))
             raw = 'ServiceRequest::path' in txt or 'Uri::path' in txt or 'HttpRequest::path' in txt
@@ -476,10 +517,25 @@ def r16d(ck, fb):
     b = blk[0]
     ck.analysed(b)
     sc = b.calls(r'Service<.*>::call$|dev::Service<Req>::call$')
-    gs = b.calls(r'auth_middle::get_user_session$')
-    ck.require(len(sc) == 1 and len(gs) == 1, 'R16d', 'block:sites', b.where(), 'service.call / get_user_session sites not found exactly once')
-    if len(sc) != 1 or len(gs) != 1:
+    lookups = session_lookups(fb, b)
+    provs = session_providers(fb, b)
+    ck.require(len(sc) == 1 and len(lookups) >= 1, 'R16d', 'block:sites', b.where(), 'service.call not found exactly once, or no get_user_session lookup reachable from the block')
+    if len(sc) != 1 or not lookups:
         return
+    # a provider hands out Some(session) only for a session that get_user_session returned
+    for t in provs:
+        for x in util.region(fb, t, 2):
+            if 'get_user_session' in x.name:
+                continue
+            ck.analysed(x)
+            tl = Taint(x, call_src=lambda tt: bool(re.search(r'auth_middle::get_user_session$', (tt.get('f') or {}).get('d', '') or '')) or
+                       any(q.name == ((tt.get('f') or {}).get('d') or '') for q in provs))
+            for (i, j, st) in x.aggregates(r'std::option::Option$', 'Some'):
+                ty = x.local_ty(st['d']) if isinstance(st.get('d'), int) else ''
+                if 'TokenSession' not in (ty or ''):
+                    continue
+                ck.require(tl.op_tainted(st['rv']['ops'][0]), 'R16d', 'provider:%s:some-only-from-lookup' % t.name.split('::')[-1], x.where(i),
+                           '%s returns Some(session) with a session that does not come from get_user_session' % t.name.split('::')[-1])
     # truth table: service.call reachable  <=>  !enable_auth || !is_check_path || (token non-empty && session == Ok(Some(_)))
     import itertools
     from rn import walk
@@ -494,13 +550,9 @@ def r16d(ck, fb):
             return ('bool', upv[d['fields'][0]])
         if d['k'] == 'call' and (cfg.callee_name(d['term']) or '').endswith('String::is_empty'):
             return ('bool', 'token_empty')
-        if d['k'] == 'discr':
-            pd = cfg.describe_operand(b, {'cp': d['pl']})
-            txt = cfg.fmt_desc(pd)
-            if 'get_user_session' in txt and d.get('adt') == 'std::result::Result':
-                return ('variant', 'session_result')
-            if 'get_user_session' in txt and d.get('adt') == 'std::option::Option':
-                return ('variant', 'session_option')
+        sd = is_session_discr(fb, b, d)
+        if sd:
+            return ('variant', sd)
         return None
     bad = None
     rows_n = 0
@@ -531,7 +583,11 @@ def r16d(ck, fb):
                 return ('bool', 'pass')
             return classify(d, term)
         r = walk.walker(b, classify2, env2)
-        want = (not ea) or (not cp) or ((not te) and sr == 'Ok' and so == 'Some')
+        if provs:
+            # the provider folds "token empty" and "lookup failed" into None
+            want = (not ea) or (not cp) or (so == 'Some')
+        else:
+            want = (not ea) or (not cp) or ((not te) and sr == 'Ok' and so == 'Some')
         got = sc[0].bb in r
         rows_n += 1
         if got != want:
@@ -543,27 +599,34 @@ def r16d(ck, fb):
     ck.require(bad is None, 'R16d', 'block:pass-table', sc[0].where(), bad or '', '%d rows' % rows_n)
     ck.require(len(f403) >= 1, 'R16d', 'block:refusal-403', b.where(), 'the refusal branch does not build HttpResponse::Forbidden')
     # session lookup happens only for non-empty token; empty token -> pass = false
-    ie = [s for s in b.calls(r'String::is_empty$')]
-    ok_e = False
-    for a in cfg.guard_atoms(b, gs[0].bb):
-        if a[0] == 'call' and (a[1] or '').endswith('is_empty') and a[2] is False:
-            ok_e = True
-    ck.require(ok_e, 'R16d', 'block:empty-token-is-no-token', gs[0].where(), 'an empty token is looked up like a real one (or the emptiness test is gone)')
+    for (x, g0) in lookups:
+        ok_e = False
+        for a in cfg.guard_atoms(x, g0.bb):
+            if a[0] == 'call' and (a[1] or '').endswith('is_empty') and a[2] is False:
+                ok_e = True
+        ck.require(ok_e, 'R16d', 'block:empty-token-is-no-token' + ('' if x is b else ':' + x.name.split('::')[-2]), g0.where(),
+                   'an empty token is looked up like a real one (or the emptiness test is gone)')
     # the session key is built from the extracted token with CacheType::ApiTokenSession
-    ks = b.calls(r'CacheKey::new$')
     okk = False
-    for s in ks:
-        a = util.agg_of(b, s.args[0])
-        if a and a['variant'] == 'ApiTokenSession':
-            okk = True
+    for x in set(y for (y, _) in lookups):
+        for s in x.calls(r'CacheKey::new$'):
+            a = util.agg_of(x, s.args[0])
+            if a and a['variant'] == 'ApiTokenSession':
+                okk = True
     ck.require(okk, 'R16d', 'block:session-kind', b.where(), 'the token is not looked up as an ApiTokenSession')
     # token extraction order (in the block itself or in a helper it calls)
     ok_o = False
-    for b2 in util.region(fb, b):
-        ht = b2.calls(r'auth_middle::header_token$')
+    for b2 in util.region(fb, b, 2):
+        # the header is read by header_token or by a helper that calls it
+        ht = list(b2.calls(r'auth_middle::header_token$'))
+        for s0 in b2.sites:
+            t = util._local_target(b2, s0)
+            if t is not None and t.file == b2.file and not t.name.endswith('::header_token') and \
+                    any(y.calls(r'auth_middle::header_token$') for y in util.region(fb, t, 1)) and t.name not in [q.name for q in provs]:
+                ht.append(s0)
         qs = b2.calls(r'serde_urlencoded::from_str')
         pb = b2.calls(r'auth_middle::peek_body_token$')
-        if len(ht) == 1 and len(qs) == 1 and len(pb) == 1:
+        if ht and qs and pb:
             ok_o = cfg.dominates_blocks(b2, {ht[0].bb}, qs[0].bb) and cfg.dominates_blocks(b2, {qs[0].bb}, pb[0].bb)
     ck.require(ok_o, 'R16d', 'block:token-order', b.where(), 'token is not extracted in the order header -> query -> body')
 
@@ -734,3 +797,32 @@ def r16h(ck, fb):
                        'the expiry stored for a cache entry is not ttl + the time stamp carried by the command (%s): it depends on when the entry is '
                        'applied, so replaying the log revives tokens that had expired' % cfg.fmt_desc(cfg.describe_operand(b, exp))[:60])
     ck.floor('R16h', 'expiry computations checked', n, 2)
+
+
+def r16i(ck, fb):
+    ck.rule('R16i', 'a wrong, expired or empty token is treated as no token - in every carrier: the HTTP middleware reads the token from the '
+                    'Authorization header, the accessToken header, the query and the form. A value that does not resolve to a login session must '
+                    'not end the search while another carrier is unread: from the outcome of one session lookup another lookup is reachable (a '
+                    'loop over the carriers or a chain). With "first carrier present wins" a proxy\'s Basic Authorization header, or an empty '
+                    'accessToken=, hides the valid token the request carries elsewhere and the request is refused')
+    mids = [b for b in fb.bodies.values() if re.search(r'auth_middle::ApiCheckAuthMiddleware<S> as actix_web::dev::Service<.*>>::call::\{closure#0\}$', b.name)]
+    if not ck.require(len(mids) == 1, 'R16i', 'anchor:middleware', '-', 'ApiCheckAuthMiddleware::call not found'):
+        return
+    m = mids[0]
+    lookups = []
+    for x in util.region(fb, m, 2):
+        for s0 in x.calls(r'auth_middle::get_user_session$'):
+            lookups.append((x, s0))
+    if not ck.require(len(lookups) >= 1, 'R16i', 'anchor:session-lookup', m.where(), 'the middleware no longer looks the session up through get_user_session'):
+        return
+    again = False
+    for (x, s0) in lookups:
+        ck.analysed(x)
+        nxt = x.blocks[s0.bb]['t'].get('t')
+        r = cfg.reach_from(x, [nxt]) if nxt is not None else set()
+        if any(o.bb in r for (y, o) in lookups if y is x):
+            again = True
+    ck.require(again, 'R16i', 'middleware:every-carrier-is-tried', lookups[0][1].where(),
+               'the token is taken from the first carrier that is present and looked up once: Authorization: Basic .. with a valid accessToken in the '
+               'query, an empty accessToken header with a valid token in the query, an empty accessToken= in the query with a valid token in the form, '
+               'a garbage header with a valid token in the form - all four are answered 403', 'a failed lookup is followed by the next carrier')
